@@ -23,4 +23,4 @@ representation. R03.2 match lists transcribed from the same state. R09.6 the DFA
 NOT_DECIDED = """Equality of the transition function for every (state, byte) of every automaton: the full correctness of ByteClassSet::byte_classes, of the match-section readers (match_len / match_pattern / State::remap offsets are not checked), and of the interleaved remap for arbitrary tries."""
 CLAIM = """Static decision of the agreement conditions between the representations that are visible in code shape: forwarding impls, id-predicate equivalence (finite abstract evaluation over all orderings), special-id provenance, single source NFA, metadata copy chains, match-list transcription."""
 NOTE = """Trusted: rustc MIR construction, the fact extractor. The match-section offsets of the contiguous encoding are not checked; the transition-table equality itself is outside the family."""
-TECHNIQUE = "static analysis: sibling-agreement checks, abstract evaluation of comparison-only predicates under all orderings, value-provenance matching over rustc MIR"
+TECHNIQUE = "static analysis: sibling-agreement checks, abstract evaluation of comparison-only predicates under all orderings, decision tables of the contiguous encoder tabulated on path summaries, reader offsets in affine normal form over rustc MIR"
